@@ -90,6 +90,11 @@ pub fn new_pair(fx: &Fixture, wal: bool) -> Pair {
     }
     let reader = Connection::open(db_path(w.db.conn())).expect("second connection");
     rusqlite::vtab::array::load_module(&reader).expect("array module");
+    // Both connections are driven by one thread: a lock held by the other side can never be released
+    // while this side waits, so waiting (rusqlite's default busy timeout is 5 s) is pure delay.
+    // SQLITE_BUSY is reported at once and counted as "blocked" / "no observation".
+    reader.busy_timeout(std::time::Duration::ZERO).expect("busy timeout");
+    w.db.conn().busy_timeout(std::time::Duration::ZERO).expect("busy timeout");
     Pair { w, reader, wal }
 }
 
@@ -226,21 +231,61 @@ pub fn reader_interrupted(fx: &Fixture, pair: &mut Pair, op: &OpDef, at_step: u6
     }
 }
 
-/// Number of VM steps of an uninterrupted get_wallet_summary on the op's pre-state.
-pub fn reader_steps(fx: &Fixture, pair: &mut Pair, op: &OpDef) -> u64 {
-    load(pair, &fx.pres[op.pre]);
-    let n = Arc::new(AtomicU64::new(0));
-    let c = n.clone();
-    pair.reader.progress_handler(
+thread_local! {
+    static STEP_NO: std::cell::Cell<u64> = const { std::cell::Cell::new(0) };
+    static STMT_STARTS: std::cell::RefCell<Vec<u64>> = const { std::cell::RefCell::new(Vec::new()) };
+}
+
+fn stmt_trace(_sql: &str) {
+    STMT_STARTS.with(|b| b.borrow_mut().push(STEP_NO.with(|n| n.get())));
+}
+
+/// Runs `read` on the (warm) reader connection counting VM steps; returns the number of steps and
+/// the step numbers at which each SQL statement of the read starts (the statement boundaries: the
+/// points where an autocommit statement's snapshot ends and the next one's begins).
+#[allow(deprecated)]
+fn count_steps(reader: &mut Connection, read: impl Fn(&Connection)) -> (u64, Vec<u64>) {
+    // warm-up: the experiments interrupt a read on a connection that has already loaded the schema
+    // and cached its prepared statements, so the measurement must be taken in that condition too
+    read(reader);
+    STEP_NO.with(|n| n.set(0));
+    STMT_STARTS.with(|b| b.borrow_mut().clear());
+    reader.progress_handler(
         1,
-        Some(move || {
-            c.fetch_add(1, Ordering::Relaxed);
+        Some(|| {
+            STEP_NO.with(|n| n.set(n.get() + 1));
             false
         }),
     );
-    let _ = summary_of(&pair.reader, fx);
-    pair.reader.progress_handler(0, None::<fn() -> bool>);
-    n.load(Ordering::Relaxed)
+    reader.trace(Some(stmt_trace));
+    read(reader);
+    reader.trace(None);
+    reader.progress_handler(0, None::<fn() -> bool>);
+    (STEP_NO.with(|n| n.get()), STMT_STARTS.with(|b| b.borrow().clone()))
+}
+
+/// VM steps of an uninterrupted get_wallet_summary on the op's pre-state, and its statement boundaries.
+pub fn reader_steps(fx: &Fixture, pair: &mut Pair, op: &OpDef) -> (u64, Vec<u64>) {
+    load(pair, &fx.pres[op.pre]);
+    count_steps(&mut pair.reader, |c| {
+        let _ = summary_of(c, fx);
+    })
+}
+
+/// The interruption points for a read of `steps` VM steps: every `stride`-th step, plus the steps
+/// around every statement boundary (the last step of the previous statement through the second step of
+/// the next one).
+pub fn interruption_points(steps: u64, bounds: &[u64], stride: u64) -> Vec<u64> {
+    let mut v: std::collections::BTreeSet<u64> = (0..).map(|i| 1 + i * stride).take_while(|k| *k <= steps).collect();
+    for b in bounds {
+        for k in b.saturating_sub(1)..=b + 2 {
+            if k >= 1 && k <= steps {
+                v.insert(k);
+            }
+        }
+    }
+    v.insert(steps.max(1));
+    v.into_iter().collect()
 }
 
 // ------------------------------------------------------------------------------------------------
@@ -250,7 +295,7 @@ pub fn reader_steps(fx: &Fixture, pair: &mut Pair, op: &OpDef) -> u64 {
 use super::migops::MigRead;
 use zcash_client_backend::data_api::WalletWrite;
 
-pub const MIG_WRITERS: [&str; 2] = ["scan_rest", "truncate"];
+pub const MIG_WRITERS: [&str; 3] = ["scan_rest", "truncate", "truncate_below_spend"];
 
 fn mig_writer(name: &str, w: &mut Wallet, fx: &Fixture) -> Result<String, String> {
     use zcash_protocol::consensus::BlockHeight;
@@ -261,6 +306,7 @@ fn mig_writer(name: &str, w: &mut Wallet, fx: &Fixture) -> Result<String, String
             let st = fx.u.state_before(0, first + 2).clone();
             zcash_client_backend::data_api::chain::scan_cached_blocks(&fx.u.network, &src, &mut w.db, BlockHeight::from_u32(first + 2), &st, 3).map(|_| String::new()).map_err(|e| format!("{e:?}"))
         }
+        "truncate_below_spend" => w.db.truncate_to_height(BlockHeight::from_u32(first + 3)).map(|h| format!("{h:?}")).map_err(|e| format!("{e:?}")),
         _ => w.db.truncate_to_height(BlockHeight::from_u32(first)).map(|h| format!("{h:?}")).map_err(|e| format!("{e:?}")),
     });
     match r {
@@ -270,24 +316,16 @@ fn mig_writer(name: &str, w: &mut Wallet, fx: &Fixture) -> Result<String, String
 }
 
 fn mig_load(fx: &Fixture, pair: &mut Pair, rd: &MigRead) {
-    load(pair, &fx.pres[1]);
+    load(pair, &fx.pres[rd.pre]);
     (rd.setup)(&mut pair.w, &fx.u);
 }
 
-pub fn mig_reader_steps(fx: &Fixture, pair: &mut Pair, rd: &MigRead) -> u64 {
+pub fn mig_reader_steps(fx: &Fixture, pair: &mut Pair, rd: &MigRead) -> (u64, Vec<u64>) {
     mig_load(fx, pair, rd);
-    let n = Arc::new(AtomicU64::new(0));
-    let c = n.clone();
-    pair.reader.progress_handler(
-        1,
-        Some(move || {
-            c.fetch_add(1, Ordering::Relaxed);
-            false
-        }),
-    );
-    let _ = (rd.read)(&pair.reader, &fx.u, pair.w.acct_a);
-    pair.reader.progress_handler(0, None::<fn() -> bool>);
-    n.load(Ordering::Relaxed)
+    let acct = pair.w.acct_a;
+    count_steps(&mut pair.reader, |c| {
+        let _ = (rd.read)(c, &fx.u, acct);
+    })
 }
 
 pub fn mig_reader_interrupted(fx: &Fixture, pair: &mut Pair, rd: &MigRead, writer: &'static str, at_step: u64) -> Result<String, String> {
